@@ -358,6 +358,13 @@ def flag_sensitive_programs(r, n_each=3):
         for a, b in ((b"\x00\x01", i2a(3)), (i2a(1), b"\x00\x03"), (b"\x00", i2a(3)), (b"\x00\x80", i2a(200)), (i2a(1), b"\x00\x00\x03")):
             add(op(12, q(s), q(a), q(b)), FLAG["CANONICAL_INTS"], "substr")
         add(guard(q(i2a(1)), b"", b"\x00" + i2a(160), 0), FLAG["CANONICAL_INTS"], "guard-cost")
+        # every shape of integer atom in the two uint_atom positions of a softfork (cost: 8 bytes, extension: 4)
+        for bad in (b"\x00", b"\x00\x00", b"\x00\x7f", b"\x00\x80", b"\x80", b"\xff", b"\x00" * 9, b"\x01" + b"\x00" * 8,
+                    b"\x00\xff\xff\xff\xff\xff\xff\xff\xff", b"\x00\x00\x01", b"\x7f" * 8, b"\x7f" * 4, b"\x00\x80\x00\x00\x00"):
+            add(guard(q(i2a(1)), b"", bad, 0), FLAG["CANONICAL_INTS"], "guard-cost-int")
+            add(guard(q(i2a(1)), b"", 160, bad), FLAG["CANONICAL_INTS"], "guard-ext-int")
+            add(op(SOFTFORK, q(bad)), FLAG["CANONICAL_INTS"], "guard-short")
+            add(op(SOFTFORK, (bad, bad)), FLAG["CANONICAL_INTS"], "guard-pair-cost")
         # NO_UNKNOWN_OPS
         for oc in (b"\x0f", b"\x40\x00", bytes.fromhex("13d61f01"), b"\x3e", b"\x3f", b"\x40", b"\x41"):
             add(op(oc, q(i2a(5)), q(b"xyz")), FLAG["NO_UNKNOWN_OPS"], "unknown")
